@@ -176,4 +176,68 @@ Section Base.
           right. exists (c_active x), o2, []. rewrite <- Hid, Ho. split; [reflexivity|left; reflexivity].
     - apply Hauth. apply (Ha a eq_refl).
   Qed.
+  (* ---- lifting an invariant of the core through the connection layer ---------------- *)
+  Section CoreInv.
+    Variable Q : S -> Prop.
+    Hypothesis Hdisp : forall k c a m, Q k -> Q (fst (fst (o_dispatch P k c a m))).
+    Hypothesis Hdisc : forall k c a, Q k -> Q (fst (o_disconnect P k c a)).
+
+    Lemma dispatch_all_core k c a ms : Q k -> Q (fst (fst (fst (dispatch_all P k c a ms)))).
+    Proof.
+      revert k a. induction ms as [|m r IH]; intros k a Hk; cbn [dispatch_all]; [exact Hk|].
+      pose proof (Hdisp k c a m Hk) as H1. destruct (o_dispatch P k c a m) as [[k1 o1] v]. cbn [fst] in H1.
+      specialize (IH k1 (match v with VComplete => true | _ => a end) H1).
+      destruct (dispatch_all P k1 c _ r) as [[[k2 o2] a2] c2]. exact IH.
+    Qed.
+
+    Lemma drop_core (st : state A S) x : Q (s_core st) -> Q (s_core (fst (drop P st x))).
+    Proof. intros H. unfold drop. pose proof (Hdisc (s_core st) (c_id x) (c_active x) H) as H1. destruct (o_disconnect P _ _ _). exact H1. Qed.
+
+    Lemma msg_part_core (st : state A S) x d : Q (s_core st) -> Q (s_core (fst (msg_part P st x d))).
+    Proof.
+      intros H. unfold msg_part. pose proof (dispatch_all_core (s_core st) (c_id x) (c_active x) (l_msgs (feed (c_loader x) d 0)) H) as H1.
+      destruct (dispatch_all P _ _ _ _) as [[[k o] act] cl]. cbn [fst] in H1.
+      match goal with |- context [drop P ?s ?y] => pose proof (drop_core s y H1) as H2; destruct (drop P s y) end.
+      destruct (_ || cl); [exact H2|exact H1].
+    Qed.
+
+    Lemma auth_part_core (st : state A S) x a d w : Q (s_core st) -> Q (s_core (fst (auth_part P st x a d w))).
+    Proof.
+      intros H. unfold auth_part. destruct (o_auth_feed P a d) as [[a' reply] v].
+      destruct (negb w && _); [apply drop_core; exact H|].
+      destruct v as [| |u]; [exact H | pose proof (drop_core st x H) as H1; destruct (drop P st x); exact H1 |].
+      match goal with |- context [msg_part P st ?y u] => pose proof (msg_part_core st y u H) as H1; destruct (msg_part P st y u) end. exact H1.
+    Qed.
+
+    Lemma expire_list_core now (l : list (conn A)) k : Q k -> Q (snd (fst (expire_list P cf now l k))).
+    Proof.
+      revert k. induction l as [|x r IH]; intros k H; cbn [expire_list]; [exact H|].
+      destruct (c_active x).
+      - specialize (IH k H). destruct (expire_list P cf now r k) as [[kept k'] o]. exact IH.
+      - destruct (auth_timeout cf <=? now - c_since x); [|exact H].
+        pose proof (Hdisc k (c_id x) false H) as H1. destruct (o_disconnect P k (c_id x) false) as [k1 o1]. cbn [fst] in H1.
+        specialize (IH k1 H1). destruct (expire_list P cf now r k1) as [[kept k2] o2]. exact IH.
+    Qed.
+
+    Lemma expire_core (st : state A S) : Q (s_core st) -> Q (s_core (fst (expire P cf st))).
+    Proof. intros H. unfold expire. pose proof (expire_list_core (s_now st) (s_conns st) (s_core st) H) as H1. destruct (expire_list P cf _ _ _) as [[kept k] o]. exact H1. Qed.
+
+    Theorem step_core (st : state A S) e : Q (s_core st) -> Q (s_core (fst (step P cf st e))).
+    Proof.
+      intros H. destruct e as [c|c d w|c|d]; cbn [step].
+      - unfold accept. destruct (negb _); [exact H|]. destruct (find_conn _ c); [exact H|]. apply expire_core. exact H.
+      - unfold read. destruct (find_conn _ c) as [x|]; [|exact H]. destruct (c_phase x).
+        + destruct d as [|b r]; [exact H|]. destruct (b =? 0); [apply auth_part_core; exact H|apply drop_core; exact H].
+        + apply auth_part_core; exact H.
+        + apply msg_part_core; exact H.
+      - destruct (find_conn _ c); [apply drop_core; exact H|exact H].
+      - apply expire_core. exact H.
+    Qed.
+
+    Theorem run_core (st : state A S) h : Q (s_core st) -> Q (s_core (fst (run P cf st h))).
+    Proof.
+      revert st. induction h as [|e r IH]; intros st H; cbn [run]; [exact H|].
+      pose proof (step_core st e H) as H1. destruct (step P cf st e) as [st1 o1]. specialize (IH st1 H1). destruct (run P cf st1 r). exact IH.
+    Qed.
+  End CoreInv.
 End Base.
